@@ -9,7 +9,7 @@ RANGES = [(75, 76, "C04"), (1, 1, "C20"), (2, 2, "C01"), (3, 8, "C03"), (9, 15, 
           (20, 25, "C08"), (26, 26, "C16"), (27, 29, "C01"), (30, 35, "C19"), (36, 37, "C09"), (38, 39, "C02"),
           (40, 44, "C05"), (45, 48, "C17"), (49, 51, "C15"), (52, 58, "C13"), (59, 61, "C14"), (62, 67, "C07"),
           (68, 68, "C10"), (69, 70, "C12"), (71, 74, "C11")]
-LATER = {"bc0e6b4": "C13", "778c0ec": "C13", "2fc18bc": "C13", "d39c4f5": "C13", "64a734b": "C05", "6d5ca68": "C05", "c06ea91": "C06", "41907f0": "C06", "4a960b2": "C06", "f4d01d1": "C06", "7e73fbc": "C19", "94ef16e": "C19", "b532a8a": "C19", "88b3625": "C19", "e9084df": "C19", "e3b8834": "C19", "2126606": "C01", "06ba064": "C01", "0f14d67": "C01", "fa10a61": "C01", "a00dfdc": "C01", "de4431b": "C01", "0a2c931": "C01", "32b7c9f": "C01", "c07ad3c": "C01", "7f76515": "C01", "5dc6758": "C01", "578b64c": "C01", "38d4507": "C01", "7dfe561": "C01", "5e8d24a": "C01", "9dc2c96": "C07", "1ab1793": "C07", "7ddab60": "C07", "0752c41": "C07", "1c79b1c": "C17", "b49d869": "C10", "8206bdf": "C10", "be6478f": "C10", "5ca920f": "C15", "67eca47": "C15", "b240915": "C01", "a6b4a67": "C01", "c147c03": "C01", "e59b7d3": "C01", "c9385af": "C13", "79798c2": "C12", "08ad906": "C12", "3e446d7": "C11", "cbe0f54": "C11", "6f57f69": "C09", "2744242": "C09", "c3f0f59": "C09", "0dbcc6d": "C18", "5352bc9": "C18", "5f54e15": "C17", "f80b6ae": "C17", "b974fb5": "C17", "9981e47": "C17", "422d0d6": "C16", "91e9747": "C13", "1e59207": "C13", "9c55a1a": "C13", "27c43f0": "C13", "1f1d6c7": "C13", "9da85e9": "C13", "783a4d7": "C13", "69172d6": "C13", "f06acf1": "C13", "cd41eee": "C13", "5665a8b": "C13", "9b4cf66": "C13", "8d03027": "C01", "6a7688f": "C02", "0554e88": "C07", "89f698d": "C07", "e7327dc": "C14", "e199403": "C14", "6f6e1b5": "C14", "ab1d7cd": "C11", "1d2c42f": "C11", "729b5c6": "C11", "2e7160d": "C11", "bf35377": "C13", "48e1fc0": "C06", "646889f": "C15", "eeb32a8": "C13", "f336e6e": "C13", "f168d39": "C08", "915554d": "C08", "73a96ee": "C08", "4176857": "C01", "c807209": "C01", "5c1e0bb": "C05", "53a105a": "C04"}  # commit-hash-prefix -> property, for fix: commits after the 74th
+LATER = {"bc0e6b4": "C13", "778c0ec": "C13", "2fc18bc": "C13", "d39c4f5": "C13", "64a734b": "C05", "6d5ca68": "C05", "c06ea91": "C06", "41907f0": "C06", "4a960b2": "C06", "f4d01d1": "C06", "7e73fbc": "C19", "94ef16e": "C19", "b532a8a": "C19", "88b3625": "C19", "e9084df": "C19", "e3b8834": "C19", "2126606": "C01", "06ba064": "C01", "0f14d67": "C01", "fa10a61": "C01", "a00dfdc": "C01", "de4431b": "C01", "0a2c931": "C01", "32b7c9f": "C01", "c07ad3c": "C01", "7f76515": "C01", "5dc6758": "C01", "578b64c": "C01", "38d4507": "C01", "7dfe561": "C01", "5e8d24a": "C01", "9dc2c96": "C07", "1ab1793": "C07", "7ddab60": "C07", "0752c41": "C07", "1c79b1c": "C17", "b49d869": "C10", "8206bdf": "C10", "be6478f": "C10", "5ca920f": "C15", "67eca47": "C15", "b240915": "C01", "a6b4a67": "C01", "c147c03": "C01", "e59b7d3": "C01", "c9385af": "C13", "79798c2": "C12", "08ad906": "C12", "3e446d7": "C11", "cbe0f54": "C11", "6f57f69": "C09", "2744242": "C09", "c3f0f59": "C09", "0dbcc6d": "C18", "5352bc9": "C18", "5f54e15": "C17", "f80b6ae": "C17", "b974fb5": "C17", "9981e47": "C17", "422d0d6": "C16", "91e9747": "C13", "1e59207": "C13", "9c55a1a": "C13", "27c43f0": "C13", "1f1d6c7": "C13", "9da85e9": "C13", "783a4d7": "C13", "69172d6": "C13", "f06acf1": "C13", "cd41eee": "C13", "5665a8b": "C13", "9b4cf66": "C13", "8d03027": "C01", "6a7688f": "C02", "0554e88": "C07", "89f698d": "C07", "e7327dc": "C14", "e199403": "C14", "6f6e1b5": "C14", "ab1d7cd": "C11", "1d2c42f": "C11", "729b5c6": "C11", "2e7160d": "C11", "bf35377": "C13", "48e1fc0": "C06", "646889f": "C15", "eeb32a8": "C13", "f336e6e": "C13", "f168d39": "C08", "915554d": "C08", "73a96ee": "C08", "4176857": "C01", "c807209": "C01", "5c1e0bb": "C05", "53a105a": "C04", "951f0bd": "C05", "f6be160": "C05", "eecd7d3": "C05"}  # commit-hash-prefix -> property, for fix: commits after the 74th
 
 
 def prop_of(i, h):
